@@ -273,7 +273,7 @@ PROPS = {
     "C14p": dict(pkg="./provider", test="TestVerifC14p", model="C14", verdict="C14v", level="other", diff_is_failure=False, stateless=True,
                  accept=lambda m, o: m == "-" or m == o, rule="Close of the sweeping provider / buffered wrapper when idle, mid-cycle, with sends hanging, and offline", trusted=[], shards={"quick": 4, "thorough": 8}),
     "C08": dict(
-        pkg=".", test="TestVerifC08", model="C08", verdict="C08v", level="proof", diff_is_failure=True, also=["C15"],
+        pkg=".", test="TestVerifC08", model="C08", verdict="C08v", level="proof", diff_is_failure=True, also=["C15", "C03"],
         accept=lambda m, o: m == "-" or m == "pseq=*" or (" " + m + " ") in (" " + o + " "),
         rule="a case is a FindProviders / FindProvidersAsync (count 0,1,2,3,K) on a scripted network whose responders name "
              "overlapping provider sets with and without addresses, optionally local provider records, failing/silent "
